@@ -131,6 +131,25 @@ structure McCfg where
   conns : List (Int × Int)
   deriving Repr
 
+/-! ### the dimensions `discover_connections` stores
+
+`working_chips` = the chips the P2P table has a route to; `_width = max(x) + 1`, `_height = max(y) + 1`
+over them - two independent maxima (the chip with the greatest x and the one with the greatest y
+need not be the same chip). -/
+
+def maxOf : List Nat → Nat
+  | [] => 0
+  | a :: t => max a (maxOf t)
+
+/-- `(max(x for x, y in working_chips) + 1, max(y for x, y in working_chips) + 1)`; `max()` of nothing raises -/
+def discoveredDims (working : List (Nat × Nat)) : Option (Nat × Nat) :=
+  if working.isEmpty then none
+  else some (maxOf (working.map (·.1)) + 1, maxOf (working.map (·.2)) + 1)
+
+/-- the chips of a `mw x mh` P2P table that have a route (are not in `dead`) -/
+def workingChips (mw mh : Nat) (dead : List (Nat × Nat)) : List (Nat × Nat) :=
+  ((List.range mw).flatMap fun x => (List.range mh).map fun y => (x, y)).filter fun c => !(dead.contains c)
+
 def ethOffsetAt (i j : Nat) : Int × Int := (ethOffset.getD i []).getD j (0, 0)
 
 /-- `rig.geometry.spinn5_local_eth_coord(x, y, w, h, root_x, root_y)` -/
@@ -813,6 +832,7 @@ partial def progOfJson (j : Json) : R Prog := do
           let inner := (List.range (n - 1)).foldr
             (fun i p => Prog.block (base + 1 + i) (ctxs.getD ((1 + i) % ctxs.length) []) p .done .done) body
           pure (Prog.block base (ctxs.getD 0 []) inner .done rest)
+      | "machine" => go rest        -- the machine changes (chips die): nothing the context mechanism sees
       | "new" => pure (.new (← nat st "oid") (← dictOfJson (← field st "ctx")) (← go rest))
       | "newapp" =>
         pure (.newApp (← nat st "id") (← nat st "oid") (← valsOfJson (← field st "pos"))
@@ -827,7 +847,14 @@ partial def progOfJson (j : Json) : R Prog := do
   go (← asArr j)
 
 def cfgOfJson (j : Json) : R McCfg := do
-  let dims ← opt j "dims" (fun d => asPair d asNat asNat)
+  -- "from_machine": the dimensions were stored by `discover_connections` on a machine whose P2P table is
+  -- `mdims` with the chips `dead` unreachable: what the code computes from that table, not what it stored
+  let dims ← match j.getObjVal? "from_machine" with
+    | .ok fm => do
+      let md ← asPair (← field fm "mdims") asNat asNat
+      let dead ← (← arr fm "dead").mapM (fun d => asPair d asNat asNat)
+      pure (discoveredDims (workingChips md.1 md.2 dead))
+    | .error _ => opt j "dims" (fun d => asPair d asNat asNat)
   let root ← opt j "root" (fun d => asPair d asInt asInt)
   let conns ← (← arr j "conns").mapM (fun d => asPair d asInt asInt)
   pure { dims, root, conns }
